@@ -75,9 +75,9 @@ let short_kind (r : address result) = match r with
   | Ok a -> kind_name (kind a) | Err -> "err" | Panic -> "panic" | OutOfFuel -> "fuel"
 
 let show_dec (o : dec_obs) : string =
-  Printf.sprintf "%s/%s S=%s A=%s R=%s S2=%s E=%s W=%s Y=%s K=%s"
+  Printf.sprintf "%s/%s S=%s H=%s A=%s R=%s S2=%s E=%s W=%s Y=%s K=%s"
     (short_kind o.d_strict) (short_kind o.d_embedded)
-    (show_res show_addr o.d_strict)
+    (show_res show_addr o.d_strict) (show_res show_addr o.d_hex)
     (match o.d_acc with None -> "-" | Some x -> show_acc x)
     (hexopt o.d_rebytes) (show_res show_addr o.d_reparsed)
     (show_res show_addr o.d_embedded) (hexopt o.d_emb_bytes)
@@ -88,6 +88,7 @@ let parse_byron_desc s = match split_on ':' s with "byr" :: r -> parse_byron_fie
 let parse_dec (impl : string list) : dec_obs =
   let t = fields impl in
   { d_strict = parse_res parse_addr (get t "S");
+    d_hex = parse_res parse_addr (get t "H");
     d_acc = (let a = get t "A" in if a = "-" then None else Some (parse_acc a));
     d_rebytes = unhexopt (get t "R");
     d_reparsed = parse_res parse_addr (get t "S2");
@@ -161,6 +162,35 @@ let () = run_driver (fun toks impl ->
     let v = (match impl with
         | [] -> "na"
         | _ -> if is_panic_obs impl then "fails:-" else show_verdict (judge_enc prefix a (parse_enc impl))) in
+    (m, v)
+  | ["b58a"; t] ->
+    let text = unhx t in
+    let r = byron_from_base58 text in
+    let m = Printf.sprintf "%s V=%s Z=%s X=%s" (match r with Ok _ -> "ok" | _ -> "err")
+        (match r with Ok _ -> "1" | _ -> "0") (show_res show_byron r)
+        (match r with Ok b -> hx (byron_to_base58 b) | _ -> "~") in
+    let v = (match impl with
+        | [] -> "na"
+        | _ -> if is_panic_obs impl then "fails:-" else
+            let f = fields impl in
+            show_verdict (judge_b58a text (get f "V" = "1") (parse_res parse_byron_desc (get f "Z"))
+                            (let x = get f "X" in if x = "~" then None else Some (unhx x)))) in
+    (m, v)
+  | ["becha"; h; d] ->
+    let hrp = unhx h and payload = unhx d in
+    let text = b32_encode hrp payload in
+    let r = (match text with Some s -> Some (from_bech32 b32_decode s) | None -> None) in
+    let m = Printf.sprintf "%s B=%s Q=%s"
+        (match r with Some x -> short_kind x | None -> "refused")
+        (match text with Some s -> hx s | None -> "none")
+        (match r with Some x -> show_res show_addr x | None -> "none") in
+    let v = (match impl with
+        | [] -> "na"
+        | _ -> if is_panic_obs impl then "fails:-" else
+            let f = fields impl in
+            let q = get f "Q" in
+            if q = "none" then (if text = None then "holds" else "fails:-")
+            else show_verdict (judge_becha payload (parse_res parse_addr q))) in
     (m, v)
   | ["bech"; h; d] ->
     let hrp = unhx h and data = unhx d in
